@@ -30,9 +30,10 @@ class _Logging:
 class TableCost(BaseCost, _Logging):
     """Cost whose value on [s, e) is table[s, e, :] (one column per variable)."""
 
-    def __init__(self, table=None, msize=1, param=None):
+    def __init__(self, table=None, msize=1, param=None, ftable=None):
         self.table = table
         self.msize = msize
+        self.ftable = ftable
         super().__init__(param)
         self._init_log()
 
@@ -49,7 +50,10 @@ class TableCost(BaseCost, _Logging):
         return np.array(self.table[starts, ends, :], dtype=float)
 
     def _evaluate_fixed_param(self, starts, ends):
-        return self._evaluate_optim_param(starts, ends)
+        if self.ftable is None:
+            return self._evaluate_optim_param(starts, ends)
+        self._log(np.column_stack((starts, ends)))
+        return np.array(self.ftable[starts, ends, :], dtype=float)
 
 
 class TableSaving(BaseSaving, _Logging):
@@ -176,8 +180,9 @@ class FixedChangeDetector(ChangeDetector):
 
 
 class RowFuncCost(BaseCost):
-    """User cost: sum over rows of |x - median|^1.5 per column (depends only on the
-    multiset of rows), optimal parameter only; fixed `param` = location."""
+    """User cost: sum over rows of |x - location| per column (depends only on the
+    multiset of rows); optimal parameter = column median (a true minimiser, so the
+    inequalities of C06 apply); fixed `param` = location."""
 
     def __init__(self, param=None):
         super().__init__(param)
@@ -188,7 +193,7 @@ class RowFuncCost(BaseCost):
 
     def _one(self, seg):
         loc = np.median(seg, axis=0) if self.param is None else np.asarray(self.param, dtype=float)
-        return (np.abs(seg - loc) ** 1.5).sum(axis=0)
+        return np.abs(seg - loc).sum(axis=0)
 
     def _evaluate_optim_param(self, starts, ends):
         return np.array([self._one(self.X_[s:e]) for s, e in zip(starts, ends)]).reshape(len(starts), -1)
